@@ -661,6 +661,95 @@ def stream_extra_dimensions(ctx, n):
     return cases
 
 
+# ---- the VALUE argument is an expression: sums, products, Abs, unevaluated Min / Max incl. zero / infinite / bare-zero terms ----
+def gen_expression_value(rng):
+    """(value source, target source, class, op)"""
+    cls = rng.choice(["length", "mass", "time", "energy", "velocity", "pressure", "dimensionless"])
+    def term(special_ok=True):
+        r = rng.random()
+        unit = unitgen.pick_unit(rng, cls)
+        if special_ok and r < 0.3:
+            return rng.choice(["0", "S.Zero", f"Quantity(0*{unit})" if unit != "S.One" else "Quantity(S.Zero)", "oo", "-oo",
+                f"Quantity(oo, dimension=Quantity({unit}).dimension)"])
+            # (no literal Float zero here: Val.vmin / vmax do not model `0.0` inside Min / Max -- the model answers "other number"
+            #  where SymPy answers 0 -- and float zeros in sums are covered by the C05 boundary stream)
+        mag = rng.choice(["3", "-5", "Rational(7,2)", "1", "-1", "250", "Rational(-1,3)", "12"])
+        body = f"({mag})*{unit}" if unit != "S.One" else f"S({mag})"
+        return f"Quantity({body})" if rng.random() < 0.6 else body
+    a, b, c = term(), term(), term(False)
+    shape = rng.choice(["Max({a}, {b}, evaluate=False)", "Min({a}, {b}, evaluate=False)", "Max({a}, {b}, {c}, evaluate=False)",
+        "Min({c}, {a}, evaluate=False)", "Abs({c})", "({c}) + ({b})", "2*Max({a}, {c}, evaluate=False)", "Max({a}, {c}, evaluate=False) + ({c})",
+        "Min({a}, {b}, evaluate=False)*3", "Abs(({c}) + ({c}))", "({a}) + ({c})", "Max({c}, {a}, evaluate=False)"])
+    vsrc = shape.format(a=a, b=b, c=c)
+    tsrc = unitgen.pick_unit(rng, cls)
+    op = rng.choice(["convert", "convert", "si", "eval"] + (["float"] if cls == "dimensionless" else []))
+    return vsrc, tsrc, cls, op
+
+
+def spec_expression_value(value, target, cls, op, obs):
+    """the model value is the value of the expression: n * unit = pyvalue(expression) (same dimension class by construction)"""
+    sv = sympy.sympify(qx.pyvalue(value))
+    if sv is S.NaN or sv.has(sympy.zoo) or sv.has(sympy.nan) or not sv.is_number:
+        return None
+    if op in ("convert", "float"):
+        su = sympy.sympify(qx.pyvalue(target)) if op == "convert" else S.One
+    else:
+        su = qx.pyvalue(si_reference_unit(qx.dim_vec(unitgen.build(f"Quantity({unitgen.CLASSES[cls][0]})").dimension)))
+    if obs[0] == "err":
+        return False if sv.is_finite else None
+    try:
+        n = sympy.sympify(obs[2])
+        if not sv.is_finite:
+            return bool(n == sv / su) if su.is_positive else None
+        return bool(abs(sympy.N(n * su - sv, 30)) <= abs(sympy.N(sv, 30)) * sympy.Float("1e-10"))
+    except Exception:  # pylint: disable=broad-except
+        return None
+
+
+def stream_expression_values(ctx, n):
+    from symplyphysics import convert_to, convert_to_si, convert_to_float  # pylint: disable=import-outside-toplevel
+    from symplyphysics.core.convert import evaluate_expression  # pylint: disable=import-outside-toplevel
+    rng = ctx.rng
+    cases = []
+    tries = 0
+    while len(cases) < n and tries < 6 * n:
+        tries += 1
+        vsrc, tsrc, cls, op = gen_expression_value(rng)
+        try:
+            value, target = build(vsrc), build(tsrc)
+            vlit, tlit = carg_lit(value), carg_lit(target)
+            if not sympy.sympify(value).atoms(SymQuantity):
+                continue
+            from sympy.physics.units.prefixes import Prefix  # pylint: disable=import-outside-toplevel
+            if op == "eval" and sympy.sympify(value).atoms(Prefix):
+                continue          # evaluate_expression leaves sympy Prefix objects alone (not a quantity): outside the property
+        except Exception:  # pylint: disable=broad-except
+            continue
+        if not _exactness(value, target):
+            continue              # Float scale factors: a sum of cancelling terms is 0 for SymPy's floats and ~1e-19 exactly; only
+                                  # expressions whose arithmetic is exact are compared in this stream
+        ex = "true"
+        if op == "convert":
+            obs = run_val(convert_to, value, target)
+            lit, kind = f"({vlit}, {tlit}, {ex}, {rval_lit(obs)})", "convert"
+        elif op == "si":
+            obs = run_val(convert_to_si, value)
+            lit, kind = f"(inr (true, {vlit}, {ex}, {rval_lit(obs)}))", "si"
+        elif op == "float":
+            try:
+                fl = convert_to_float(value)
+                obs = ("ok", ("Q", Fraction(fl)) if math.isfinite(fl) else ("PInf",) if fl > 0 else ("NInf",), sympy.Float(fl))
+            except Exception as e:  # pylint: disable=broad-except
+                obs = ("err", qx.err_class(e), f"{type(e).__name__}: {e}"[:200])
+            lit, kind = f"(inr (false, {vlit}, false, {rval_lit(obs)}))", "si"
+        else:
+            obs = run_val(evaluate_expression, value)
+            lit, kind = None, "eval"               # Min / Max are outside aexpr: specification check only
+        cases.append({"lit": lit, "kind": kind, "op": op, "vsrc": vsrc, "tsrc": tsrc, "cls": cls, "obs": obs,
+            "spec": spec_expression_value(value, target, cls, op, obs)})
+    return cases
+
+
 # ---- history: sequences of conversions in ONE process ----------------------------------------------------
 # The model is stateless: the result of every call must be what the model gives for that call alone, whatever was
 # converted before.  A sequence = definitions of user units (name -> source) + steps; every object is rebuilt from
@@ -1265,6 +1354,29 @@ def run(ctx):
         ctx.sample({"stream": "evaluate_expression", "expr": ecases[0]["expr"], "impl": _obs_json(ecases[0]["obs"])})
     n_bad += len(bad_e)
 
+    # ---- the value argument is an expression (sums, products, Abs, unevaluated Min / Max with zero / infinite terms) ---------
+    vcases = stream_expression_values(ctx, ctx.pick(500, 4000))
+    flagged = {}
+    for kind, check, ctype in (("convert", "fun c : carg * carg * bool * result val => let '(a, b, ex, o) := c in rval_close ex (convert_to a b) o",
+            "carg * carg * bool * result val"), ("si", SI_CHECK, "(dim * cres) + (bool * carg * bool * result val)")):
+        sub = [c for c in vcases if c["kind"] == kind]
+        for i in coqrun.eval_cases(ctx, f"exprvalue_{kind}", pre, [c["lit"] for c in sub], check, case_type=ctype):
+            flagged[id(sub[i])] = sub[i]
+    for c in vcases:
+        if c["spec"] is False:
+            flagged[id(c)] = c
+    for c in sorted(flagged.values(), key=lambda c: c["spec"] is not False)[:25]:
+        ctx.violation(f"C07:expression-value:{c['op']}:{c['vsrc']}->{c['tsrc']}",
+            f"{c['op']}({c['vsrc']}" + (f", {c['tsrc']}" if c["op"] == "convert" else "") + f") = {_obs_json(c['obs'])}: not the value of the expression",
+            {"kind": "disagreement", "stream": "expression-value", "op": c["op"], "value": c["vsrc"], "target": c["tsrc"], "class": c["cls"],
+             "observed": _obs_json(c["obs"]), "gallina": c["lit"], "expected": "n * unit = value of the expression (Max / Min / Abs / sums evaluated on the scale factors)",
+             "theorem_or_tie": "convert_spec + correspondence with CollectQ on expression-valued arguments"}, c["spec"] is False)
+    n_bad += len(flagged)
+    ctx.evaluated(len(vcases), len({(c["op"], c["vsrc"], c["tsrc"]) for c in vcases}))
+    ctx.coverage["expression_value_cases"] = len(vcases)
+    if vcases:
+        ctx.sample({"stream": "expression-value", "op": vcases[0]["op"], "value": vcases[0]["vsrc"], "target": vcases[0]["tsrc"], "impl": _obs_json(vcases[0]["obs"])})
+
     # ---- evaluate_expression: all flag combinations, magnitudes 1e-40 .. 1e40, free symbols (specification check) ---------
     fcases = list(EVAL_FIXED) + [(gen_flag_expr(ctx.rng), ctx.rng.choice(EVAL_KWARGS)) for _ in range(ctx.pick(250, 2000))]
     n_flag_dec = 0
@@ -1569,6 +1681,16 @@ def replay(ctx, rep):
         if alone:
             print(f"  the last call alone, in a fresh interpreter -> {alone[-1]['obs']}; specification predicate: {alone[-1]['spec']}")
         rc = 1 if res[-1][3] is False else 0
+    elif stream == "expression-value":
+        from symplyphysics import convert_to_float  # pylint: disable=import-outside-toplevel
+        from symplyphysics.core.convert import evaluate_expression  # pylint: disable=import-outside-toplevel
+        value, target = build(rep["value"]), build(rep["target"])
+        fn = {"convert": lambda: convert_to(value, target), "si": lambda: convert_to_si(value), "float": lambda: sympy.Float(convert_to_float(value)),
+            "eval": lambda: evaluate_expression(value)}[rep["op"]]
+        obs = run_val(fn)
+        ok = spec_expression_value(value, target, rep["class"], rep["op"], obs)
+        print(f"{rep['op']}({rep['value']}, {rep['target']}) -> {_obs_json(obs)}; value of the expression (scale) = {qx.pyvalue(value)}; specification predicate: {ok}")
+        rc = 1 if ok is False else 0
     elif stream == "celsius-history":
         vals = [float(v) for v in rep["values"]]
         res = run_celsius_history(vals, Fraction(27315, 100), rep.get("second_object", False))
